@@ -270,7 +270,7 @@ fn run_cons<const W: bool>(c: ConsIter<'static, Buf, W>, ops: Vec<COp>, logs: Ar
 }
 
 #[derive(Debug, Clone)]
-struct Verdict { violations: Vec<(String, String)>, events: usize, decisions: Vec<usize>, accepted: Vec<u64>, consumed: Vec<u64>, orderings: Vec<String>, stale_reads: usize, calls: usize, freed: usize }
+struct Verdict { trace: Vec<String>, violations: Vec<(String, String)>, events: usize, decisions: Vec<usize>, accepted: Vec<u64>, consumed: Vec<u64>, orderings: Vec<String>, stale_reads: usize, calls: usize, freed: usize }
 
 fn is_subsequence(a: &[u64], b: &[u64]) -> bool { let mut i = 0; for x in b { if i < a.len() && a[i] == *x { i += 1; } } i == a.len() }
 
@@ -279,6 +279,7 @@ fn execute(pr: &Program) -> Verdict {
     let len = pr.len;
     {
         let mut s = Sched::new(pr.seed, pr.script.clone(), pr.stale_pct);
+        s.has_w = pr.has_w;
         s.active = [true, pr.has_w, true];
         s.finished = [false, !pr.has_w, false];
         *S.lock().unwrap() = Some(s);
@@ -344,7 +345,32 @@ fn execute(pr: &Program) -> Verdict {
     let mut ords: Vec<String> = s.events.iter().map(|e| format!("{} {} {}", ["load", "store", "rmw"][e.kind as usize], e.loc, e.ord)).collect();
     ords.sort(); ords.dedup();
     let stale = s.events.iter().filter(|e| e.kind == 0 && e.read_idx.map(|i| i != e.last_idx).unwrap_or(false)).count();
-    Verdict { violations: v, events: s.events.len(), decisions: s.decisions.clone(), accepted: l.accepted, consumed: l.consumed, orderings: ords, stale_reads: stale, calls: l.calls.len(), freed: s.freed }
+    Verdict { trace: s.trace.clone(), violations: v, events: s.events.len(), decisions: s.decisions.clone(), accepted: l.accepted, consumed: l.consumed, orderings: ords, stale_reads: stale, calls: l.calls.len(), freed: s.freed }
+}
+
+/// Replays the recorded execution on the Lean concurrent machine (driver lines `cinit` / `cld` / `cst` / `cac`): every record
+/// must be an enabled step of the machine; a broken guard is reported against the property whose theorem has that guard as a premise.
+fn replay_on_model(d: &mut mrb_harness::driver::Driver, pr: &Program, v: &Verdict) -> Vec<(String, String)> {
+    let mut out = vec![];
+    let a = d.ask(&format!("cinit {} {}", pr.len, pr.has_w as u8));
+    if !a.starts_with("ok") { out.push((String::new(), format!("Lean concurrent machine: cinit refused: {a}"))); return out; }
+    let mut model_raced = false;
+    for (i, l) in v.trace.iter().enumerate() {
+        let a = d.ask(l);
+        if a.contains("raced=true") { model_raced = true; }
+        if a.starts_with("ok") { continue; }
+        let ctx: Vec<String> = v.trace[i.saturating_sub(6)..=i].to_vec();
+        let detail = format!("the recorded execution is not an execution of the Lean concurrent machine: record {i} `{l}` -> `{a}` (preceding records: {:?})", ctx);
+        if a.contains("moved-beyond-established-availability") { out.push(("C05".into(), detail.clone())); out.push(("C04".into(), detail)); }
+        else if a.contains("access-outside-window") { out.push(("C03".into(), detail)); }
+        else { out.push((String::new(), detail)); }
+        break;
+    }
+    let real_raced = v.violations.iter().any(|(t, d)| t == "C03" && d.starts_with("data race"));
+    if out.is_empty() && model_raced != real_raced {
+        out.push((String::new(), format!("race verdicts differ: Lean machine raced={model_raced}, scheduler's detector raced={real_raced}")));
+    }
+    out
 }
 
 fn gen_program(rng: &mut Rng, seed: u64) -> Program {
@@ -373,6 +399,8 @@ fn main() {
     let seed: u64 = arg(&args, "--seed").and_then(|s| s.parse().ok()).unwrap_or(1);
     let cases: usize = arg(&args, "--cases").and_then(|s| s.parse().ok()).unwrap_or(200);
     let out_path = arg(&args, "--out");
+    let mut driver = arg(&args, "--driver").map(|p| mrb_harness::driver::Driver::spawn(&p).expect("cannot start the Lean driver"));
+    let mut replayed = 0usize;
     let t0 = Instant::now();
     let mut fj: Vec<String> = vec![]; let mut samples: Vec<String> = vec![];
     let (mut n, mut nfail, mut events, mut stale, mut calls) = (0usize, 0usize, 0usize, 0usize, 0usize);
@@ -387,7 +415,8 @@ fn main() {
     };
     if let Some(rp) = arg(&args, "--replay") {
         let pr = Program::parse(&std::fs::read_to_string(&rp).expect("replay")).expect("cannot parse program");
-        let v = execute(&pr);
+        let mut v = execute(&pr);
+        if let Some(d) = driver.as_mut() { let extra = replay_on_model(d, &pr, &v); replayed += v.trace.len(); v.violations.extend(extra); }
         n = 1; events = v.events; stale = v.stale_reads; calls = v.calls;
         for o in &v.orderings { *ords.entry(o.clone()).or_insert(0) += 1; }
         samples.push(pr.text());
@@ -397,7 +426,8 @@ fn main() {
         let mut tag_counts: BTreeMap<String, usize> = BTreeMap::new();
         for k in 0..cases {
             let pr = gen_program(&mut rng, seed.wrapping_mul(1000003).wrapping_add(k as u64));
-            let v = execute(&pr);
+            let mut v = execute(&pr);
+            if let Some(d) = driver.as_mut() { let extra = replay_on_model(d, &pr, &v); replayed += v.trace.len(); v.violations.extend(extra); }
             n += 1; events += v.events; stale += v.stale_reads; calls += v.calls;
             for o in &v.orderings { *ords.entry(o.clone()).or_insert(0) += 1; }
             if v.events >= 4 { distinct.insert(format!("{:?}{:?}", pr.ops, v.decisions)); }
@@ -414,7 +444,7 @@ fn main() {
     }
     let oh: Vec<(String, String)> = ords.iter().map(|(k, v)| (k.clone(), v.to_string())).collect();
     let oref: Vec<(&str, String)> = oh.iter().map(|(k, v)| (k.as_str(), v.clone())).collect();
-    let summary = obj(&[("profile", esc("conc")), ("seed", seed.to_string()), ("cases", n.to_string()), ("steps", events.to_string()), ("api_calls", calls.to_string()), ("stale_reads", stale.to_string()),
+    let summary = obj(&[("profile", esc("conc")), ("seed", seed.to_string()), ("cases", n.to_string()), ("steps", events.to_string()), ("api_calls", calls.to_string()), ("stale_reads", stale.to_string()), ("records_replayed_on_lean_machine", replayed.to_string()),
         ("refused_requests", "0".into()), ("wrap_arounds", "0".into()), ("distinct_nontrivial", distinct.len().to_string()), ("ops", obj(&oref)), ("lens", "{}".into()), ("variants", "{}".into()),
         ("failing_cases", nfail.to_string()), ("failure_kinds", "{}".into()), ("failures", arr(&fj)), ("samples", strs(&samples)), ("wall_s", format!("{:.2}", t0.elapsed().as_secs_f64()))]);
     match out_path { Some(p) => std::fs::write(p, summary).unwrap(), None => println!("{summary}") }
